@@ -522,6 +522,125 @@ Fixpoint ref_sim (fuel : nat) (t : topology) (now ia ingress : N) (pk : packet)
     end
   end.
 
+(** * Control plane, structural: beaconing and path assembly (C01) *)
+
+Record uhop := mkUHop { u_exp : N; u_in : N; u_eg : N }.
+(** an AS entry before MACs: AS, its key, the hop (cons ingress/egress), and its peer
+    entries (peer AS, the peer's interface, hop with cons ingress = own peering interface and
+    the same cons egress) *)
+Record uentry := mkUEntry {
+  ue_ia : N; ue_key : key; ue_hop : uhop; ue_peers : list (N * N * uhop) }.
+Record sentry := mkSEntry { se_ia : N; se_hop : hopf; se_peers : list (N * N * hopf) }.
+Record segment := mkSeg { sg_beta0 : N; sg_ts : N; sg_entries : list sentry }.
+
+Definition mk_hop (u : uhop) (m : N) : hopf := mkHop false false (u_exp u) (u_in u) (u_eg u) m.
+Definition umac (K : key) (beta ts : N) (u : uhop) : N := mac K beta ts (u_exp u) (u_in u) (u_eg u).
+
+(** the SCION specification: sigma_i = MAC_Ki(beta_i, ...), beta_(i+1) = beta_i xor
+    sigma_i[0..2], peer entries MACed over beta_(i+1) *)
+Fixpoint beacon_entries (beta ts : N) (us : list uentry) : list sentry :=
+  match us with
+  | [] => []
+  | u :: r =>
+    let sigma := umac (ue_key u) beta ts (ue_hop u) in
+    let beta' := beta_step beta sigma in
+    mkSEntry (ue_ia u) (mk_hop (ue_hop u) sigma)
+             (map (fun '(pia, pif, ph) => (pia, pif, mk_hop ph (umac (ue_key u) beta' ts ph)))
+                  (ue_peers u))
+    :: beacon_entries beta' ts r
+  end.
+Definition beacon (beta0 ts : N) (us : list uentry) : segment :=
+  mkSeg beta0 ts (beacon_entries beta0 ts us).
+
+(** the code: [SignedPathSegment::add_entry] = [AsEntry::update_macs] then push, iterated.
+    [mac_chaining_beta] folds the hop MACs of all entries already in the segment (the
+    [take_while] stops at an entry equal to the new, still MAC-less one: none, as stored
+    entries carry their MACs). *)
+Definition chain_beta (beta0 : N) (es : list sentry) : N :=
+  fold_left (fun b e => beta_step b (h_mac (se_hop e))) es beta0.
+Definition code_update_macs (beta0 ts : N) (existing : list sentry) (u : uentry) : sentry :=
+  let mac_beta := chain_beta beta0 existing in
+  let sigma := umac (ue_key u) mac_beta ts (ue_hop u) in
+  let peer_beta := if update_macs_peer_next_beta then beta_step mac_beta sigma else mac_beta in
+  mkSEntry (ue_ia u) (mk_hop (ue_hop u) sigma)
+           (map (fun '(pia, pif, ph) => (pia, pif, mk_hop ph (umac (ue_key u) peer_beta ts ph)))
+                (ue_peers u)).
+Definition code_beacon (beta0 ts : N) (us : list uentry) : segment :=
+  mkSeg beta0 ts (fold_left (fun acc u => acc ++ [code_update_macs beta0 ts acc u]) us []).
+
+(** one use of a segment in a path ([SolutionEdge]): from entry [k] (the shortcut index) to
+    the end, entry [k] possibly through one of its peer entries, in or against construction
+    direction *)
+Record suse := mkUse { us_seg : segment; us_k : nat; us_peer : option nat; us_cons : bool }.
+
+(** [PathSolution::path], one edge: the hop fields in travel order ([None]: the peer index is
+    invalid, an [expect] in the code) *)
+Definition use_hops (u : suse) : option (list hopf) :=
+  match skipn (us_k u) (sg_entries (us_seg u)) with
+  | [] => Some []
+  | e0 :: r =>
+    match (match us_peer u with
+           | None => Some (se_hop e0)
+           | Some pi => match nth_error (se_peers e0) pi with
+                        | Some (_, _, ph) => Some ph
+                        | None => None
+                        end
+           end) with
+    | None => None
+    | Some h0 =>
+      let hs := h0 :: map se_hop r in
+      Some (if us_cons u then hs else rev hs)
+    end
+  end.
+
+(** [SolutionEdge::initialize_segment_id] *)
+Definition init_segid (u : suse) : N :=
+  let es := sg_entries (us_seg u) in
+  let stop0 := if us_cons u then us_k u else (length es - 1)%nat in
+  let stop := match us_peer u with
+              | Some _ => if (us_k u =? stop0)%nat then S stop0 else stop0
+              | None => stop0
+              end in
+  chain_beta (sg_beta0 (us_seg u)) (firstn stop es).
+
+Definition use_info (u : suse) : infof :=
+  mkInfo (match us_peer u with Some _ => true | None => false end) (us_cons u)
+         (init_segid u) (sg_ts (us_seg u)).
+
+(** the data-plane path of a solution (up to three uses) *)
+Definition assemble (dst : N) (uses : list suse) : option packet :=
+  let hs := map use_hops uses in
+  if forallb (fun o => match o with Some _ => true | None => false end) hs then
+    let hl := map (fun o => match o with Some l => l | None => [] end) hs in
+    Some (mkPkt dst (mkPath 0 0 (map (@length hopf) hl) (map use_info uses) (concat hl)))
+  else None.
+
+(** reversal of a path at its current position ([StandardPath::try_reverse]) *)
+Definition path_reverse (p : path) : path :=
+  mkPath (length (p_lens p) - 1 - p_ci p) (length (p_hops p) - 1 - p_ch p)
+         (rev (p_lens p))
+         (rev (map (fun i => mkInfo (i_peer i) (negb (i_cons i)) (i_segid i) (i_ts i)) (p_infos p)))
+         (rev (p_hops p)).
+
+(** the SegID a router following the data-plane rules carries when it verifies each hop field
+    of ONE segment, hop fields in travel order.
+    In construction direction: verify, then chain (not across a peering hop, which comes
+    first).  Against it: restore, then verify (not at the first hop field, which is verified
+    as found: source AS or crossover; not at a peering hop, which comes last). *)
+Fixpoint carried_cons (s : N) (hs : list hopf) (peer_first : bool) : list N :=
+  match hs with
+  | [] => []
+  | h :: r => s :: carried_cons (if peer_first then s else beta_step s (h_mac h)) r false
+  end.
+Fixpoint carried_rev (s : N) (hs : list hopf) (first peer_last : bool) : list N :=
+  match hs with
+  | [] => []
+  | h :: r =>
+    let is_last := match r with [] => true | _ => false end in
+    let s' := if first || (peer_last && is_last) then s else beta_step s (h_mac h) in
+    s' :: carried_rev s' r false peer_last
+  end.
+
 End Keyed.
 
 Arguments asrec : clear implicits.
